@@ -432,11 +432,21 @@ def prove(ctx, prop_file, extra_targets=()):
     assumptions = []
     if ok:
         for f in files:
-            rc, out = sh(["coqc", "-Q", ".", "DepsDev", "-w", "-notation-overridden", f], cwd=COQ, timeout=1200)
-            if rc != 0:
-                ok = False
-                log += "\n" + out
-                continue
+            # the output of the property file (Print Assumptions) is cached next to its .vo and reused
+            # as long as the .vo is not rebuilt (re-running a heavy property file costs minutes)
+            cache = os.path.join(COQ, f[:-2] + ".assumptions")
+            vo = os.path.join(COQ, f + "o")
+            if newer(cache, vo):
+                out = open(cache).read()
+            else:
+                rc, out = sh(["coqc", "-Q", ".", "DepsDev", "-w", "-notation-overridden", f], cwd=COQ, timeout=2400)
+                if rc != 0:
+                    ok = False
+                    log += "\n" + out
+                    continue
+                with open(cache, "w") as cf:
+                    cf.write(out)
+                os.utime(cache, None)
             cur = None
             for line in out.splitlines():
                 if line.startswith("Closed under the global context"):
